@@ -356,6 +356,11 @@ func (c *bctx) ufApply(t *Term) interface{} {
 		kl, fixed := knownLen(t)
 		if fixed {
 			capn = int(kl)
+		} else if strings.HasPrefix(t.name, "b64dec_") && len(t.args) == 1 {
+			// decoded bytes of an input of known length: room for 3 bytes per 4 characters
+			if n, ok := knownLen(t.args[0]); ok && int(n)*3/4+3 > capn {
+				capn = int(n)*3/4 + 3
+			}
 		}
 		app.res = c.freshVec(capn, "uf")
 		v := app.res.(*bvec)
